@@ -117,6 +117,13 @@ Ambiguous(d, p, th) ==
      /\ \E s \in Covered(d, p) : ~IsPow2(Tot(d, s, p))
      /\ \E b \in Bases : LET m == MeanFreq(d, p, b) IN m[1] * th.maf[2] = th.maf[1] * m[2]
 
+(* Reference bases outside A/C/G/T (N, IUPAC codes, as the FASTA spells them after upper-casing): the documented rule   *)
+(* needs a reference allele among the four counted nucleotides, so it says nothing about such a position (the program   *)
+(* drops it).  What the rule does say is that the record of a position is a function of THAT position's depth column   *)
+(* and reference base only (the signature of RecR): an unusable position can neither move, renumber nor remove the      *)
+(* record of any other position of the target.                                                                          *)
+RefUsable(r) == r \in Bases
+
 (* the record of one position: 0 = not emitted, else                          *)
 (* <<kept bases, masked, {<<base, mean freq num, den>>}, ambiguous>>           *)
 RecR(d, p, th, ref) ==
@@ -279,6 +286,10 @@ ZeroIsVacuous == \A t \in Inst.th : \A p \in 1..NP :
 (* the exact mean sample frequencies (the ALT order key) of the four bases sum to one *)
 MeanFreqSumsToOne == \A p \in 1..NP : Covered(D0, p) # {} =>
   LET m == [b \in Bases |-> MeanFreq(D0, p, b)] IN m["A"][1] + m["C"][1] + m["G"][1] + m["T"][1] = m["A"][2]
+(* the record of a position is decided by that position's depth column alone: emptying every other column (what an     *)
+(* unusable, uncovered or removed neighbouring position amounts to) leaves it unchanged                                  *)
+OnlyColumn(d, p) == [s \in DOMAIN d |-> [q \in DOMAIN d[s] |-> IF q = p THEN d[s][q] ELSE [b \in Bases |-> 0]]]
+PositionLocal == \A t \in Inst.th : \A p \in 1..NP : Rec(OnlyColumn(D0, p), p, t) = Rec(D0, p, t)
 (* emitted positions list at least two alleles; the reference is masked iff it failed *)
 EmitIffTwo == \A t \in Inst.th : \A p \in 1..NP :
   LET r == Rec(D0, p, t) IN (~r[4]) => ((r[1] # {}) <=> Cardinality(Keep(D0, p, t)) >= 2) /\ (r[1] # {} => (r[2] <=> RefBase[p] \notin r[1]))
